@@ -71,8 +71,9 @@ def alphabets(seed):
         "u1": [0, 1, 128, 255, g_u1],
         "f8": [0.0, 3.0, -2.5, -0.0, 1e-300, float("inf"), float("-inf"), g_f8],
         "f4": [0.0, 3.0, -2.5, float(np.float32(0.1)), float(np.float32(1e30)), g_f4],
-        "S3": [b"a", b"b", b"ab", b"", b"zz", b"zzz", b"\xe9", g_s],
-        "U3": ["a", "b", "ab", "", "zz", "zzz", "é", g_u],
+        # "a " / "a\t": values that differ from "a" only by trailing white space are different values
+        "S3": [b"a", b"b", b"ab", b"", b"a ", b"zzz", b"\xe9", g_s],
+        "U3": ["a", "b", "ab", "", "a\t", "zzz", "é", g_u],
     }
 
 
@@ -91,9 +92,9 @@ def ladders(seed):
         "f4": (float("-inf"), [0.0, 1.0, 3.0, -2.5, float(np.float32(0.1)), float(np.float32(0.3)), 0.5,
                                a["f4"][-1], -0.5, float(np.float32(1e-30)), float(np.float32(1e30)),
                                float(np.float32(-1e30))], float("inf")),
-        "S3": (b"", [b"a", b"b", b"ab", b"aa", b"abc", b"ba", b"z", a["S3"][-1], b"zz", b"zzz", b"A", b"\xe9"],
+        "S3": (b"", [b"a", b"b", b"ab", b"aa", b"abc", b"a ", b"z", a["S3"][-1], b"zz", b"zzz", b"zz\n", b"\xe9"],
                b"\xff\xff\xff"),
-        "U3": ("", ["a", "b", "ab", "aa", "abc", "ba", "z", a["U3"][-1], "zz", "zzz", "A", "é"],
+        "U3": ("", ["a", "b", "ab", "aa", "abc", "a ", "z", a["U3"][-1], "zz", "zzz", "zz\t", "é"],
                "\U0010ffff\U0010ffff\U0010ffff"),
     }
 
@@ -695,6 +696,33 @@ def main(ctx):
             return rec.fail(case, "rem_dup on %d elements: %d indices for %d distinct values, or a kept element without the largest flag"
                             % (n2, idx.size, len(best)))
         rec.ok(case, outcome="rem_dup:%s" % dt, nontrivial=True, calls=1)
+
+    # millions of elements in runs of equal values whose length (7, then 11; the first run shorter) is coprime to every
+    # plausible block size: in sorted order a run straddles EVERY position that could be a block boundary
+    def one_runs(case, rec):
+        what, n, run, first = case
+        vals_sorted = (np.arange(n, dtype="i8") + (run - first)) // run
+        vals = vals_sorted[(np.arange(n, dtype="i8") * 7919 + 11) % n]
+        ndist = int(vals_sorted[-1]) + 1
+        if what == "unique":
+            idx = np.asarray(nu.unique(vals))
+            ok = idx.size == ndist and np.array_equal(np.sort(vals[idx]), np.arange(ndist))
+            if not ok:
+                return rec.fail(case, "unique on %d elements in runs of %d: %d indices for %d distinct values" % (n, run, idx.size, ndist))
+        else:
+            flags = (np.arange(n, dtype="i8") * 31 + 3) % 13
+            idx = np.asarray(nu.rem_dup(vals, flags)).reshape(-1)
+            best = np.full(ndist, -1, dtype="i8")
+            np.maximum.at(best, vals, flags)
+            ok = idx.size == ndist and np.array_equal(np.sort(vals[idx]), np.arange(ndist)) and np.array_equal(flags[idx], best[vals[idx]])
+            if not ok:
+                return rec.fail(case, "rem_dup on %d elements in runs of %d: %d indices for %d distinct values, or a kept element "
+                                      "without the largest flag of its value" % (n, run, idx.size, ndist))
+        rec.ok(case, outcome="runs:%s" % what, nontrivial=True, calls=1)
+
+    from mc.longarr import marks as _marks
+    runits = [(w, m + 5, run, first) for w in ("unique", "rem_dup") for m in _marks(ctx)[:ctx.pick(1, 4)] for (run, first) in ((7, 3), (11, 5))]
+    ctx.lattice("long-runs", runits, one_runs, bounds=dict(lengths=sorted({u[1] for u in runits}), run_lengths=[7, 11]))
 
     SIZES = ctx.pick([(100, 4095), (100, 4096), (3000, 5000), (70, 70000)], [(100, 4095), (100, 4096), (3000, 5000), (5000, 3000), (70, 70000), (70000, 70000), (65536, 65537)])
     lunits = [("match", n1, n2, dt) for (n1, n2) in SIZES for dt in ("i8", "f8", "i4", "S8")]
